@@ -98,6 +98,7 @@ def rpy(chk, prog, only=None):
                     continue
             chk.ob("RPY", "%s o %s%s" % (to, fr, " [threshold arm]" if arm else ""), "to_angles(from_rpy(r,p,y)) has arguments (sin r cos p, cos r cos p), sin p, (sin y cos p, cos y cos p)", law,
                    module=f.module.rel, function=f.qname, construct="rpy round trip (%s)%s" % (label, " [threshold arm]" if arm else ""), line=f.node.lineno)
+    rpy_gates(chk, prog, [str(a) for a in ang], routes if only is None else [r_ for r_ in routes if r_[0] in only])
     if only is not None:
         return
     f1, f2 = prog.func(ORI + "::rpy2q"), prog.func(ORI + "::q2rpy")
@@ -430,6 +431,66 @@ def band_rule(chk, f, pid, domain_low, why):
     chk.counts["BAND.shortcuts"] = chk.counts.get("BAND.shortcuts", 0) + n
     if n == 0:
         chk.record("BAND", f.ref, "no tolerance-based identity shortcut on the trace (exact comparisons have an empty band)")
+
+
+def rpy_gates(chk, prog, names, routes, limit=1e-6):
+    """RPY.gate: tolerance tests inside to_angles that close as pitch -> +-90 deg (gimbal-lock shortcuts) may only capture pitches within `limit` of the pole:
+    the round trip is required for every |pitch| < 90 deg.  The residual of each gate met on from_rpy(r, p, y) is evaluated along p = +-(pi/2 - s)."""
+    import math
+    from sa.symeval import Interp as _I
+    for label, fr, to, build, pick in routes:
+        mark = len(_I.GATE_LOG)
+        try:
+            it = Interp(prog, oracle=lambda c, i: False if c.op in ("<", ">", "<=", ">=", "isclose", "allclose") else None)
+            it.run(prog.func(to), [], self_obj=build(it))
+        except Exception as e:
+            chk.record("RPY.gate", to, "gates of %s not analysable (%s): no verdict" % (to, type(e).__name__), verdict="UNKNOWN")
+            continue
+        gates = [g for g in _I.GATE_LOG[mark:] if g[0].split("::")[-1].split(".")[-1] in ("to_angles", "q2rpy")]
+        seen = set()
+        n = 0
+        for fn, lhs, rhs, tol, ans in gates:
+            key = (str(lhs)[:80], str(rhs))
+            if key in seen:
+                continue
+            seen.add(key)
+            c = rhs.const() if hasattr(rhs, "const") else None
+            if c is None:
+                continue
+            t = tol[1] + tol[0] * abs(float(c))
+            worst = None
+            for sign in (1.0, -1.0):
+                def resid(s_):
+                    vals = {names[0]: 0.3, names[1]: sign * (math.pi / 2 - s_), names[2]: 0.7}
+                    return abs(P.evalf(lhs - rhs, lambda at: vals[at.name] if at.name in vals else (_ for _ in ()).throw(KeyError(at.name))))
+                try:
+                    f2_, f3_ = resid(1e-3), resid(1e-4)
+                except KeyError:
+                    break
+                if not (f2_ > f3_ >= 0) or f3_ > 1e-3:
+                    continue
+                if f3_ == 0:
+                    continue
+                p_ = round(math.log(f2_ / f3_) / math.log(10.0))
+                if p_ < 1:
+                    continue
+                k_ = f3_ / (1e-4 ** p_)
+                band = (t / k_) ** (1.0 / p_)
+                worst = max(worst or 0.0, band)
+            if worst is None:
+                continue
+            n += 1
+            site = "%s::isclose(%s, %s)" % (to, str(lhs)[:50], rhs)
+            if worst > limit:
+                f_ = prog.func(to)
+                why = "the tolerance test isclose(%s, %s) in %s is true for every pitch within %.3e rad (%.3f deg) of +-90 deg: angles inside the stated domain |pitch| < 90 deg take the " \
+                      "gimbal-lock shortcut and are not returned by the round trip" % (str(lhs)[:50], rhs, f_.qname, worst, math.degrees(worst))
+                chk.record("RPY.gate", site, "pole shortcut captures only |pitch| within %.0e rad of 90 deg" % limit, verdict="VIOLATION", detail=why)
+                chk.finding("RPY.gate", f_.module.rel, f_.qname, "gimbal-lock tolerance gate", why, line=f_.node.lineno)
+            else:
+                chk.record("RPY.gate", site, "pole shortcut captures pitches within %.3e rad of +-90 deg only" % worst)
+        if n == 0:
+            chk.record("RPY.gate", to, "no tolerance test in %s closes at the pitch poles" % to)
 
 
 def canaries(chk, prog):
